@@ -7,6 +7,9 @@ CHECKS = {
  "C11": dict(cat="other", tech="CTFE table arithmetic (exhaustive) + abstract interpretation of the transform entry points",
    text="Static: all 2048 production twiddle-table entries (as evaluated by the compiler) are psi^(+-bitrev(i)) for one primitive 2048-th root of unity; for each of the 11 supported lengths the n^-1 constant that reaches the inverse butterfly satisfies n*ninv=1 mod q; each entry point passes the right table. This is what the suite leaves open (it never compares the production tables with anything). The butterflies' algebra over all inputs is not decided.",
    note=TRUST + "Undecided clause: generic butterfly algebra for every n and input (C11-4).", ref="4/C11"),
+ "C12": dict(cat="proof", tech="abstract interpretation: intervals + residue classes mod q + trace partitioning",
+   text="Static proof obligations over ALL inputs: for Felt::new (every i16) and add/sub/neg/mul/multiply/inverse_or_zero/div/value/balanced_value/zero/one and the *_assign forms (every canonical pair) the abstract result lies in [0,q) (resp. [-6144,6144]) and carries the mathematically correct residue class as a polynomial identity mod q in the input symbols; every overflow/division assert in those bodies is discharged; every site that constructs a Felt is one of the analysed functions; batch inversion is analysed symbolically for every zero/non-zero pattern of lengths 1..3. The suite samples 100 random pairs; this covers the edge residues (0, q-1, -q, i16::MIN) by construction.",
+   note=TRUST + "Invariant assumed inductively: Felt arguments are canonical. Batch inversion for lengths > 3 is not decided.", ref="4/C12"),
 }
 NA = {
  "C17": "algebraic/numeric equivalence of two Babai reductions at run-time magnitudes; no structural clause that is both decidable and a substantial necessary condition (DESIGN.md section 4, C17)",
